@@ -212,10 +212,10 @@ func chainOf(v ssa.Value) string {
 	switch x := v.(type) {
 	case *ssa.FieldAddr:
 		st := x.X.Type().Underlying().(*types.Pointer).Elem().Underlying().(*types.Struct)
-		return chainOf(x.X) + "." + st.Field(x.Field).Name()
+		return chainOf(x.X) + "." + canonField(st.Field(x.Field))
 	case *ssa.Field:
 		st := x.X.Type().Underlying().(*types.Struct)
-		return chainOf(x.X) + "." + st.Field(x.Field).Name()
+		return chainOf(x.X) + "." + canonField(st.Field(x.Field))
 	case *ssa.IndexAddr:
 		return chainOf(x.X) + "[*]"
 	case *ssa.Index:
